@@ -21,12 +21,21 @@ hvars == <<hb, hmon, meatOffered, meatDerived, anyCharge, anyEaten, hended>>
 HInit == hb = [kind |-> "none"] /\ hmon = 0 /\ meatOffered = Zero /\ meatDerived = Zero /\ anyCharge = FALSE
          /\ anyEaten = FALSE /\ hended = FALSE
 
-BeginS(e) == /\ hb' = e /\ hmon' = 0 /\ meatOffered' = Zero /\ meatDerived' = Zero /\ anyCharge' = FALSE
-             /\ anyEaten' = FALSE /\ hended' = FALSE
-
 Pct(x) == Mul(x, Dec(100, 1))
+\* Per-head meat yields [billion kcal per million head = kcal per head / 1000], from the documented carcass weights and energy
+\* densities: chicken and pig weights are country inputs, small / medium animals 2.36 / 24.6 kg, large animals 269.7 kg unless
+\* overridden (kg_meat_per_large_animal); 1525 / 3590 / 2750 kcal per kg for small / medium / large animals.
+YieldOK(kh, kg) ==
+  /\ Eq(Mul(kh["chicken"], I(1000)), Mul(kg.chicken, I(1525))) /\ Eq(Mul(kh["pig"], I(1000)), Mul(kg.pig, I(3590)))
+  /\ Eq(Mul(kh["small"], I(1000)), Mul(Dec(23600, 1), I(1525))) /\ Eq(Mul(kh["medium"], I(1000)), Mul(Dec(246000, 1), I(3590)))
+  /\ Eq(Mul(kh["large"], I(1000)), Mul(kg.large, I(2750)))
 \* milk is logged in thousand kcal: 12 months x 10^3 (the exhaustive configuration counts milk in kcal, so 12 there)
 MilkScale == IF Exact THEN I(12) ELSE I(12000)
+
+BeginS(e) == /\ Ck("YieldsAsDocumented", Exact \/ YieldOK(e.kcalHead, e.kg))
+             /\ hb' = e /\ hmon' = 0 /\ meatOffered' = Zero /\ meatDerived' = Zero /\ anyCharge' = FALSE
+             /\ anyEaten' = FALSE /\ hended' = FALSE
+
 RECURSIVE SumSl(_, _)
 SumSl(q, k) == IF k = 0 THEN Zero ELSE Add(Mul(q[k].head, hb.kcalHead[q[k].class]), SumSl(q, k - 1))
 RECURSIVE SumPop(_, _)
